@@ -5,8 +5,12 @@ sys.path.insert(0, os.path.dirname(os.path.dirname(os.path.abspath(__file__))))
 props = [json.loads(l) for l in open('properties.jsonl')]
 checks, na = [], []
 NA = json.load(open('tools/not_applicable.json')) if os.path.exists('tools/not_applicable.json') else {}
+REG = set(open('tools/registered.txt').read().split())
 for p in props:
     pid = p['id']
+    if pid not in REG:
+        na.append({'property_id': pid, 'reason': NA.get(pid, 'not claimed yet: its monitor has not been shown silent on the unchanged tree over several seeds and firing on seeded breaks (see DESIGN.md section 6)')})
+        continue
     try:
         m = importlib.import_module('monitors.%s' % pid.lower())
     except ModuleNotFoundError:
